@@ -129,3 +129,109 @@ func VH_L_CeilDiv() {
 	}
 	vhReach("lemma-done")
 }
+
+func vhMapIndexSlab(id SlabID, nchildren int, idxBase byte, prev *uint64, first *bool) *MapMetaDataSlab {
+	m := &MapMetaDataSlab{header: MapSlabHeader{slabID: id, size: mapMetaDataSlabPrefixSize + mapSlabHeaderSize*uint32(nchildren)}}
+	for i := 0; i < nchildren; i++ {
+		d := vhU64("fk")
+		if !*first {
+			vhAssume(d > *prev)
+		}
+		*first = false
+		*prev = d
+		m.childrenHeaders = append(m.childrenHeaders, MapSlabHeader{slabID: vhSlabID(2, idxBase+byte(i)), size: vhRange32("csize", 1, 49152), firstKey: Digest(d)})
+	}
+	m.header.firstKey = m.childrenHeaders[0].firstKey
+	return m
+}
+
+func vhCheckMapIndexSlab(m *MapMetaDataSlab, firstChild byte, n int, what string) {
+	vhAssert(len(m.childrenHeaders) == n, what+": child count")
+	vhAssert(m.header.size == mapMetaDataSlabPrefixSize+mapSlabHeaderSize*uint32(n), what+": size = prefix + 18 per child")
+	for i, h := range m.childrenHeaders {
+		vhAssert(h.slabID == vhSlabID(2, firstChild+byte(i)), what+": child order")
+		if i > 0 {
+			vhAssert(m.childrenHeaders[i-1].firstKey < h.firstKey, what+": first keys strictly ascending")
+		}
+	}
+	if n > 0 {
+		vhAssert(m.header.firstKey == m.childrenHeaders[0].firstKey, what+": first key = first child's first key")
+	}
+}
+
+//vh:prop C05
+//vh:param k 10 20
+func VH_C05_MapIndexKernels() {
+	K := vhParam("k", 10)
+	T := vhRange32("T", 256, 32768)
+	vhSetThreshold(T)
+	storage := vhNewBasicStorage()
+	var prev uint64
+	first := true
+	switch vhChoose("kernel", 2) {
+	case 0:
+		n := 2 + vhChoose("n", K+14)
+		id, _ := storage.GenerateSlabID(vhAddr(1))
+		m := vhMapIndexSlab(id, n, 1, &prev, &first)
+		vhAssume(m.header.size > maxThreshold)
+		vhAssume(m.header.size-mapSlabHeaderSize <= maxThreshold)
+		vhAssert(m.IsFull(), "IsFull agrees with the band")
+		l, r, err := m.Split(storage)
+		vhAssert(err == nil, "map index split: no error")
+		if err != nil {
+			return
+		}
+		left, right := l.(*MapMetaDataSlab), r.(*MapMetaDataSlab)
+		nl, nr := len(left.childrenHeaders), len(right.childrenHeaders)
+		vhAssert(nl+nr == n && nl >= 1 && nr >= 1, "map index split: children preserved")
+		vhCheckMapIndexSlab(left, 1, nl, "map index split left")
+		vhCheckMapIndexSlab(right, 1+byte(nl), nr, "map index split right")
+		vhAssert(left.header.size >= minThreshold && left.header.size <= maxThreshold, "map index split: left within band")
+		vhAssert(right.header.size >= minThreshold && right.header.size <= maxThreshold, "map index split: right within band")
+		vhReach("map-index-split")
+	case 1:
+		nl := 1 + vhChoose("nl", K)
+		nr := 1 + vhChoose("nr", K)
+		left := vhMapIndexSlab(vhSlabID(1, 1), nl, 1, &prev, &first)
+		right := vhMapIndexSlab(vhSlabID(1, 2), nr, 1+byte(nl), &prev, &first)
+		total := nl + nr
+		leftUnder := vhChoose("underflow", 2) == 0
+		under, other := left, right
+		if !leftUnder {
+			under, other = right, left
+		}
+		vhAssume(under.header.size < minThreshold)
+		vhAssume(under.header.size+mapSlabHeaderSize >= minThreshold)
+		vhAssume(other.header.size >= minThreshold && other.header.size <= maxThreshold)
+		underflowSize, isUnder := under.IsUnderflow()
+		vhAssert(isUnder, "IsUnderflow agrees with the band")
+		var canLend bool
+		if leftUnder {
+			canLend = right.CanLendToLeft(underflowSize)
+		} else {
+			canLend = left.CanLendToRight(underflowSize)
+		}
+		if canLend {
+			var err error
+			if leftUnder {
+				err = left.BorrowFromRight(right)
+			} else {
+				err = left.LendToRight(right)
+			}
+			vhAssert(err == nil, "map index rebalance: no error")
+			cl, cr := len(left.childrenHeaders), len(right.childrenHeaders)
+			vhAssert(cl+cr == total, "map index rebalance: children preserved")
+			vhCheckMapIndexSlab(left, 1, cl, "map index rebalance left")
+			vhCheckMapIndexSlab(right, 1+byte(cl), cr, "map index rebalance right")
+			vhAssert(left.header.size >= minThreshold && left.header.size <= maxThreshold, "map index rebalance: left within band")
+			vhAssert(right.header.size >= minThreshold && right.header.size <= maxThreshold, "map index rebalance: right within band")
+			vhReach("map-index-rebalanced")
+			return
+		}
+		err := left.Merge(right)
+		vhAssert(err == nil, "map index merge: no error")
+		vhCheckMapIndexSlab(left, 1, total, "map index merged")
+		vhAssert(left.header.size <= maxThreshold, "map index merge: merged slab does not overflow")
+		vhReach("map-index-merged")
+	}
+}
